@@ -436,6 +436,57 @@ func c10Constructors(pool []geom.Geometry, desc func() string) *h.Failure {
 			return f
 		}
 	}
+	// constructors and UnionMany must not modify the elements of the caller's slice either
+	{
+		s := append([]geom.Geometry(nil), pool...)
+		// members with different coordinate types make the constructor convert them
+		if len(s) > 1 {
+			s[0] = s[0].ForceCoordinatesType(geom.DimXYZ)
+			s[1] = s[1].ForceCoordinatesType(geom.DimXYM)
+		}
+		before := make([]string, len(s))
+		for i := range s {
+			before[i] = apienum.Repr(reflect.ValueOf(s[i]))
+		}
+		_ = geom.NewGeometryCollection(s)
+		_, _ = geom.UnionMany(s)
+		for i := range s {
+			if now := apienum.Repr(reflect.ValueOf(s[i])); now != before[i] {
+				return h.Failf("pure/caller-slice-modified", "NewGeometryCollection/UnionMany changed element %d of the slice passed to it: %s -> %s%s", i, clip(before[i], 200), clip(now, 200), desc())
+			}
+		}
+		ps := append([]geom.Point(nil), pts...)
+		if len(ps) > 1 {
+			ps[0] = ps[0].ForceCoordinatesType(geom.DimXYZ)
+			ps[1] = ps[1].ForceCoordinatesType(geom.DimXYM)
+			b0, b1 := apienum.Repr(reflect.ValueOf(ps[0])), apienum.Repr(reflect.ValueOf(ps[1]))
+			_ = geom.NewMultiPoint(ps)
+			if apienum.Repr(reflect.ValueOf(ps[0])) != b0 || apienum.Repr(reflect.ValueOf(ps[1])) != b1 {
+				return h.Failf("pure/caller-slice-modified", "NewMultiPoint changed an element of the slice passed to it%s", desc())
+			}
+		}
+		ls := append([]geom.LineString(nil), lss...)
+		if len(ls) > 1 {
+			ls[0] = ls[0].ForceCoordinatesType(geom.DimXYZ)
+			ls[1] = ls[1].ForceCoordinatesType(geom.DimXYM)
+			b0, b1 := apienum.Repr(reflect.ValueOf(ls[0])), apienum.Repr(reflect.ValueOf(ls[1]))
+			_ = geom.NewMultiLineString(ls)
+			_ = geom.NewPolygon(ls)
+			if apienum.Repr(reflect.ValueOf(ls[0])) != b0 || apienum.Repr(reflect.ValueOf(ls[1])) != b1 {
+				return h.Failf("pure/caller-slice-modified", "NewMultiLineString/NewPolygon changed an element of the slice passed to it%s", desc())
+			}
+		}
+		pl := append([]geom.Polygon(nil), polys...)
+		if len(pl) > 1 {
+			pl[0] = pl[0].ForceCoordinatesType(geom.DimXYZ)
+			pl[1] = pl[1].ForceCoordinatesType(geom.DimXYM)
+			b0, b1 := apienum.Repr(reflect.ValueOf(pl[0])), apienum.Repr(reflect.ValueOf(pl[1]))
+			_ = geom.NewMultiPolygon(pl)
+			if apienum.Repr(reflect.ValueOf(pl[0])) != b0 || apienum.Repr(reflect.ValueOf(pl[1])) != b1 {
+				return h.Failf("pure/caller-slice-modified", "NewMultiPolygon changed an element of the slice passed to it%s", desc())
+			}
+		}
+	}
 	if f := check("NewGeometryCollection", func() (geom.Geometry, func()) {
 		s := append([]geom.Geometry(nil), pool...)
 		return geom.NewGeometryCollection(s).AsGeometry(), func() {
